@@ -86,6 +86,7 @@ type Contract struct {
 	Key      string // "Deque.PushFront" or "positiveMod" (package-local) or "slices.Index" for ext
 	Pkg      string // package path the block was declared in
 	Ext      bool   // assume-ext: contract of a function outside the repo (never proved)
+	SplitFirst bool // skip the attempt on the whole conjunction
 	ThoroughOnly bool // verified in the thorough tier only (slow lemma clients)
 	Derives string // lemma client: name of the function whose trusted postconditions it derives
 	BudgetS int // per-solver time limit override (seconds)
@@ -168,7 +169,7 @@ type PkgSpec struct {
 	Axioms    []*Clause
 }
 
-var kwRe = regexp.MustCompile(`^(pure|pred|ghostinit|ghost|func|props|requires|ensures|trustens|panics|pensures|modifies|ghostparam|uses|inlinecall|dispatch|intwidth|anykinds|repeats|repeatargs|loop|ext|lemma|axiom|inline|trusted|decreases|ispure|noalloc|layers|withouttrust|budget|derives|thoroughonly|params|results|end|sort|ufun|callback|before|after|invokes)\b`)
+var kwRe = regexp.MustCompile(`^(pure|pred|ghostinit|ghost|func|props|requires|ensures|trustens|panics|pensures|modifies|ghostparam|uses|inlinecall|dispatch|intwidth|anykinds|repeats|repeatargs|loop|ext|lemma|axiom|inline|trusted|decreases|ispure|noalloc|layers|withouttrust|budget|derives|thoroughonly|splitfirst|params|results|end|sort|ufun|callback|before|after|invokes)\b`)
 
 func loadPkgSpec(dir, pkgPath string) (*PkgSpec, error) {
 	ps := &PkgSpec{Path: pkgPath, Macros: map[string]*Macro{}, Ghosts: map[string]*GhostField{}, Contracts: map[string]*Contract{}, Sorts: map[string]bool{}, UFuns: map[string]*UFun{}, Callbacks: map[string]*Contract{}}
@@ -404,6 +405,9 @@ func (ps *PkgSpec) parseFile(file, data string) error {
 			cur.NoAlloc = true
 		case "withouttrust":
 			cur.WithoutTrust = true
+		case "splitfirst":
+			// prove conjunctive goals of this function conjunct by conjunct right away
+			cur.SplitFirst = true
 		case "thoroughonly":
 			cur.ThoroughOnly = true
 		case "derives":
